@@ -231,6 +231,9 @@ class ModelT(Node):
         """values: dict name -> value for the fields that are given; others get the model's own default."""
         if self.mkind == "typeddict":
             return dict(values)
+        if self.mkind == "attrs":
+            # attrs strips leading underscores from the __init__ parameter of a private attribute
+            return self.cls(**{k.lstrip("_"): v for k, v in values.items()})
         return self.cls(**values)
 
     def view(self, x):
